@@ -44,6 +44,7 @@
 (*   invalid_unloads      unreadable content unloads the rule set          *)
 (*   lookup_cache         responses are served from a per-path cache that  *)
 (*                        is never invalidated (stale beyond the window)   *)
+(*   remove_ignored       a removed / emptied source stays loaded          *)
 (***************************************************************************)
 EXTENDS HeimdallOps
 
@@ -158,7 +159,8 @@ Apply(w) ==
   /\ worker[w].pc = "fetched" /\ repoOp = "idle"
   /\ LET s   == worker[w].src
          v   == worker[w].view
-         res == P!RefSync(s, v.c, stored[s], FALSE, FALSE)
+         res == IF Mutant = "remove_ignored" /\ v.c \in P!Gone THEN P!NoCalls(stored[s])
+                ELSE P!RefSync(s, v.c, stored[s], FALSE, FALSE)
      IN /\ stored' = [stored EXCEPT ![s] = res.stored]
         /\ IF res.calls = <<>> THEN
               UNCHANGED <<active, actIdx, req, repoOp>> /\ WorkerDone(w, s)
@@ -278,6 +280,14 @@ InvE4 == "E4" \notin viol
 
 (* the contract of HeimdallOps never rejects what the composition does *)
 InvContract == bad = {}
+
+(* the single comparisons of the contract (each negative control names the one it must trip) *)
+CtrE1 == "e2e-version-older-than-acknowledged" \notin bad
+CtrE2 == "e2e-rule-missing-during-update" \notin bad
+CtrE3Latest  == "e2e-latest-version-not-loaded" \notin bad
+CtrE3Removed == "e2e-removed-source-still-served" \notin bad
+CtrE3Invalid == "e2e-invalid-content-changed-the-active-version" \notin bad
+CtrE4 == "e2e-version-regression" \notin bad
 
 InvTypes ==
   /\ \A s \in Srcs : stored[s] = active[s].c \/ repoOp = s
